@@ -16,7 +16,7 @@ var (
 	lvals    = []string{"1", "2"}
 	outKeys  = []string{"k1", "k2", "k3", "k4"}
 	vals     = []string{"v1", "v2", "v3"}
-	atomPool = []Atom{{Kind: "key"}, {Kind: "selects"}, {Kind: "selectsNE"}, {Kind: "label"}, {Kind: "nsIndex"}, {Kind: "valIndex"},
+	atomPool = []Atom{{Kind: "key"}, {Kind: "selects"}, {Kind: "selectsNE"}, {Kind: "label"}, {Kind: "nsIndex"}, {Kind: "valIndex"}, {Kind: "keys"}, {Kind: "objName"},
 		{Kind: "generic", N: 0}, {Kind: "generic", N: 1}, {Kind: "generic", N: 2}}
 )
 
@@ -36,7 +36,9 @@ func genTransform(r *wire.Rng) Transform {
 		if r.Chance(40, 100) {
 			b := wire.Pick(r, atomPool)
 			// krt allows one of key / index per fetch (key+index panics, a second index replaces the first)
-			pre := func(k string) bool { return k == "key" || k == "nsIndex" || k == "valIndex" }
+			pre := func(k string) bool {
+				return k == "key" || k == "nsIndex" || k == "valIndex" || k == "keys" || k == "objName"
+			}
 			bad := b.Kind == f[0].Kind && b.Kind != "generic" || (pre(b.Kind) && pre(f[0].Kind)) ||
 				(b.Kind == "generic" && f[0].Kind == "generic")
 			if !bad {
@@ -81,10 +83,40 @@ type caseGen struct {
 	f6      bool
 	d       *disc
 	sec     map[string]Obj
+	sec2    map[string]Obj
+	secmode string
+	chain   bool
+	touched map[string]int // sj: which of sec (1) / sec2 (2) changed the key since the last barrier
 	lines   []string
 	subs    []string
+	psubs   []string
+	dsubs   []string
+	late    bool
 	nsub    int
 	started bool
+}
+
+// touch keeps the join discipline of mode sj: a fetched key is changed by one of sec / sec2 between barriers.
+func (g *caseGen) touch(k string, side int) {
+	if g.secmode != "sj" || !g.started {
+		return
+	}
+	if t, f := g.touched[k]; f && t != side {
+		g.sync()
+	}
+	g.touched[k] = side
+}
+
+func (g *caseGen) sdel(k string) {
+	g.touch(k, 1)
+	delete(g.sec, k)
+	g.emit("s.del", k)
+}
+
+func (g *caseGen) tset(o Obj) {
+	g.touch(o.ResourceName(), 2)
+	g.sec2[o.ResourceName()] = o
+	g.emit("t.set", o.Token())
 }
 
 func (g *caseGen) emit(toks ...string) { g.lines = append(g.lines, strings.Join(toks, " ")) }
@@ -135,7 +167,11 @@ func (g *caseGen) safeOuts(o Obj) Obj {
 
 func (g *caseGen) pset(o Obj) {
 	g.d.primSet(o)
-	g.emit("p.set", o.Token())
+	if g.r.Chance(10, 100) {
+		g.emit("p.cset", o.Token())
+	} else {
+		g.emit("p.set", o.Token())
+	}
 }
 
 func (g *caseGen) pdel(k string) {
@@ -144,17 +180,24 @@ func (g *caseGen) pdel(k string) {
 }
 
 func (g *caseGen) sset(o Obj) {
+	g.touch(o.ResourceName(), 1)
 	g.sec[o.ResourceName()] = o
-	g.emit("s.set", o.Token())
+	if g.r.Chance(10, 100) {
+		g.emit("s.cset", o.Token())
+	} else {
+		g.emit("s.set", o.Token())
+	}
 }
 
 func (g *caseGen) sync() {
 	g.d.barrier()
+	g.touched = map[string]int{}
 	g.emit("sync")
 }
 
 func (g *caseGen) queries() {
 	g.d.barrier()
+	g.touched = map[string]int{}
 	g.emit("list")
 	var keys []string
 	if g.t.Multi {
@@ -177,6 +220,21 @@ func (g *caseGen) queries() {
 	for _, s := range g.subs {
 		g.emit("stream", s)
 	}
+	for _, s := range g.psubs {
+		g.emit("pstream", s)
+	}
+	for _, s := range g.dsubs {
+		g.emit("dstream", s)
+	}
+	if g.late {
+		for _, ns := range nss {
+			for _, n := range snames {
+				if g.r.Chance(50, 100) {
+					g.emit("flookup", ns+"/"+n)
+				}
+			}
+		}
+	}
 	if g.f6 {
 		g.emit("ulist")
 		for _, ns := range nss {
@@ -191,8 +249,24 @@ func (g *caseGen) queries() {
 func (g *caseGen) addSub(kind string) {
 	g.nsub++
 	name := fmt.Sprintf("s%d", g.nsub)
+	// on the observed collection, on the primary static collection, or on the first-level derived collection
+	switch x := g.r.Intn(100); {
+	case x < 20 || !g.started:
+		g.emit("psub", name, kind)
+		g.psubs = append(g.psubs, name)
+		return
+	case x < 40 && g.started:
+		if kind == "nostate" {
+			g.d.barrier()
+			g.touched = map[string]int{}
+		}
+		g.emit("dsub", name, kind)
+		g.dsubs = append(g.dsubs, name)
+		return
+	}
 	if kind == "nostate" {
 		g.d.barrier()
+		g.touched = map[string]int{}
 	}
 	g.emit("sub", name, kind)
 	g.subs = append(g.subs, name)
@@ -318,12 +392,28 @@ func (g *caseGen) op() {
 			g.sset(g.sec[wire.Pick(r, ks)])
 		}
 	case x < 74:
-		if ks := g.secKeys(); len(ks) > 0 {
-			k := wire.Pick(r, ks)
-			delete(g.sec, k)
-			g.emit("s.del", k)
+		if r.Chance(12, 100) { // DeleteObjects on one namespace
+			ns := wire.Pick(r, nss)
+			if r.Chance(50, 100) {
+				for _, p := range g.primKeys() {
+					if g.d.prim[p].NS == ns {
+						g.d.primDel(p)
+					}
+				}
+				g.emit("p.delwhere", ns)
+			} else {
+				for _, k := range g.secKeys() {
+					if g.sec[k].NS == ns {
+						g.touch(k, 1)
+						delete(g.sec, k)
+					}
+				}
+				g.emit("s.delwhere", ns)
+			}
+		} else if ks := g.secKeys(); len(ks) > 0 {
+			g.sdel(wire.Pick(r, ks))
 		} else {
-			g.emit("s.del", "n1/x")
+			g.sdel("n1/x")
 		}
 	case x < 79: // rapid flip A B A of one object
 		if r.Chance(50, 100) {
@@ -347,8 +437,7 @@ func (g *caseGen) op() {
 			b.Sel = genLabels(r, 35)
 			g.sset(a)
 			if r.Chance(30, 100) {
-				delete(g.sec, a.ResourceName())
-				g.emit("s.del", a.ResourceName())
+				g.sdel(a.ResourceName())
 			} else {
 				g.sset(b)
 			}
@@ -371,6 +460,15 @@ func (g *caseGen) op() {
 		}
 		g.d.primReset(objs)
 		g.emit(toks...)
+	case x < 92 && g.secmode == "sj": // changes of the second joined collection instead of a Reset
+		if ks := g.sec2Keys(); len(ks) > 0 && r.Chance(35, 100) {
+			k := wire.Pick(r, ks)
+			g.touch(k, 2)
+			delete(g.sec2, k)
+			g.emit("t.del", k)
+		} else {
+			g.tset(genObj(r, snames))
+		}
 	case x < 92: // Reset of the fetched collection
 		toks := []string{"s.reset"}
 		ns := map[string]Obj{}
@@ -396,14 +494,39 @@ func (g *caseGen) op() {
 	case x < 95:
 		g.addSub(wire.Pick(r, []string{"single", "batch", "batch", "nostate"}))
 	case x < 97:
-		g.queries()
+		if !g.late && r.Chance(40, 100) {
+			g.late = true
+			g.emit("lateindex")
+		} else {
+			g.queries()
+		}
 	default:
 		g.moveKey()
 	}
+	if (g.secmode == "s2" || g.secmode == "sj") && r.Chance(25, 100) {
+		if ks := g.sec2Keys(); len(ks) > 0 && r.Chance(30, 100) {
+			k := wire.Pick(r, ks)
+			g.touch(k, 2)
+			delete(g.sec2, k)
+			g.emit("t.del", k)
+		} else {
+			g.tset(genObj(r, snames))
+		}
+	}
+}
+
+func (g *caseGen) sec2Keys() []string {
+	ks := make([]string, 0, len(g.sec2))
+	for k := range g.sec2 {
+		ks = append(ks, k)
+	}
+	sort.Strings(ks)
+	return ks
 }
 
 func genCase(r *wire.Rng, n int, stream string, w *wire.Out) {
-	g := &caseGen{r: r, t: genTransform(r), f6: stream == "krtf6", sec: map[string]Obj{}}
+	g := &caseGen{r: r, t: genTransform(r), f6: stream == "krtf6", sec: map[string]Obj{}, sec2: map[string]Obj{},
+		touched: map[string]int{}}
 	if g.f6 {
 		g.t.Multi = true
 	}
@@ -414,15 +537,33 @@ func genCase(r *wire.Rng, n int, stream string, w *wire.Out) {
 	}
 	if r.Chance(25, 100) {
 		head = append(head, "chain")
+		g.chain = true
+	}
+	switch x := r.Intn(100); {
+	case x < 13:
+		g.secmode = "sd"
+	case x < 27:
+		g.secmode = "sj"
+	case x < 40:
+		g.secmode = "s2"
+	}
+	if g.secmode != "" {
+		head = append(head, g.secmode)
 	}
 	g.emit(head...)
 	// initial state present before the derived collection exists
 	for i, k := 0, r.Intn(6); i < k; i++ {
-		if r.Chance(50, 100) {
+		switch x := r.Intn(100); {
+		case x < 45:
 			g.pset(g.safeOuts(genObj(r, pnames)))
-		} else {
+		case x < 80 || g.secmode == "" || g.secmode == "sd":
 			g.sset(genObj(r, snames))
+		default:
+			g.tset(genObj(r, snames))
 		}
+	}
+	if r.Chance(15, 100) {
+		g.addSub("batch") // may be a subscriber of the primary collection registered before the derived one exists
 	}
 	g.emit("start")
 	g.started = true
